@@ -48,6 +48,16 @@ class Effects:
     if isinstance(test, ast.UnaryOp) and isinstance(test.op, ast.Not):
       v = Effects._decided(test.operand, none_params)
       return None if v is None else not v
+    if isinstance(test, ast.BoolOp):
+      # `p is not None and <anything>` is false when p is None; `p is None or <anything>` is true
+      vals = [Effects._decided(v, none_params) for v in test.values]
+      if isinstance(test.op, ast.And):
+        if any(v is False for v in vals):
+          return False
+        return True if all(v is True for v in vals) else None
+      if any(v is True for v in vals):
+        return True
+      return False if all(v is False for v in vals) else None
     if isinstance(test, ast.Compare) and len(test.ops) == 1 and isinstance(test.left, ast.Name) and test.left.id in none_params \
         and isinstance(test.comparators[0], ast.Constant) and test.comparators[0].value is None:
       if isinstance(test.ops[0], (ast.Is, ast.Eq)):
